@@ -354,6 +354,14 @@ def scratch_dir(tag):
 
 # ------------------------------------------------------------------ known findings
 
+def _kinds(vs):
+    out = {}
+    for v in vs:
+        k = v["what"][:90] + " | key=" + str(v.get("finding_key"))
+        out[k] = out.get(k, 0) + 1
+    return out
+
+
 def load_known_findings():
     p = os.path.join(VERIF, "known_findings.json")
     try:
@@ -488,7 +496,7 @@ class Check:
         if new_viol:
             replay_path = os.path.join(REPLAY, f"{self.id}-{self.tier}.json")
             json.dump({"property": self.id, "seed": self.seed, "tier": self.tier,
-                       "kind": "failing-input", "violations": new_viol[:20],
+                       "kind": "failing-input", "violations": new_viol[:40], "violation_kinds": _kinds(new_viol),
                        "broken": self.broken, "disagreements": self.disagreements[:10]},
                       open(replay_path, "w"), indent=1, default=str)
             print(f"VIOLATION property={self.id} replay={replay_path}")
